@@ -21,6 +21,7 @@ func c04(c *Ctx) {
 	}
 	boundsFor(c, "C04", entries)
 	structC04(c)
+	lenFieldRule(c)
 }
 
 var structC04 = func(c *Ctx) {}
